@@ -28,6 +28,8 @@ KIND = {
     "A-": lambda i: rs("sq/a", [["string", "s"]], ["'m%d'" % i]),
 }
 EVENTS = ["A", "B", "A+", "A-", "flush", "close"]
+# "bad": an A record whose integer does not fit SQLite's 64 bits: write() raises, the caller carries on
+BAD = lambda i: rs("sq/a", [["string", "s"], ["varint", "n"]], ["'bad%d'" % i, "2**63"])  # noqa: E731
 BATCHES = [1, 2, 3, 1000]
 _n = [0]
 
@@ -81,7 +83,18 @@ def run_history(hist, batch):
             if closed:
                 break
             total_before = len(written)
-            if ev in KIND:
+            if ev == "bad":
+                r = recs.build_record(BAD(step))
+                key = (r._desc.name, tuple(r._desc.get_field_tuples()))
+                if key not in seen_desc:
+                    seen_desc.add(key)
+                    commit_points.add(total_before)
+                try:
+                    w.write(r)
+                    viol.append(("C18:out-of-range-integer-accepted", {"step": step, "batch": batch}))
+                except Exception:  # noqa: BLE001  refused: nothing of it may be stored, nothing accepted before may be lost
+                    pass
+            elif ev in KIND:
                 r = recs.build_record(KIND[ev](step))
                 key = (r._desc.name, tuple(r._desc.get_field_tuples()))
                 if key not in seen_desc:
@@ -370,6 +383,11 @@ def cases(tier, seed):
                 continue  # nothing happens after close
             yield {"kind": "hist", "hist": list(hist)}
     # longer single-type histories around the batch boundaries
+    for k in range(1, 5):
+        for hist in itertools.product(["A", "B", "bad", "flush"], repeat=k):
+            if "bad" in hist:
+                yield {"kind": "hist", "hist": list(hist) + ["close"]}
+                yield {"kind": "hist", "hist": list(hist)}
     for n in range(1, 9):
         yield {"kind": "hist", "hist": ["A"] * n}
         yield {"kind": "hist", "hist": ["A"] * n + ["close"]}
